@@ -4,8 +4,16 @@ Proof (Props/C06.lean; details in that file's header): `save_twice_witness` (F13
 `save_twice_no_segments` (any class: save of a segment-less object is idempotent on its own output),
 `save_twice` / `save_idempotent_on_settled` (ELF64, flat or nested segments, none at file offset 0, side
 conditions `ResaveOk` = no F13 trigger and non-zero segment starts: a second successful save returns the
-same result), with the ladder `stepCore_resave` .. `segRun_resave`.  Stated, not proved:
-`SaveLoadSaveStatement`; ELF32 and offset-0 segments (loaded executables) are covered by the
+same result), with the ladder `stepCore_resave` .. `segRun_resave`.
+ANY CLASS (Props/C06Cls.lean): `save_twice_cls` / `save_idempotent_on_settled_cls` are save_twice for ELF32 and
+ELF64 alike (ladder `stepCore_resave_cls` .. `segRun_resave_cls`), under `ResaveOkC` = ResaveOk plus two side
+conditions that only bite in ELF32: an address the writer assigns to a member fits the 32-bit field (else the
+second save derives the gap from the truncated address), and every segment's start offset fits the 32-bit field
+(else the stored p_offset is not where the segment was laid out).  `resaveOkC_of_c64`: in ELF64 ResaveOkC is
+ResaveOk (save_twice_cls contains save_twice).  `resaveOkB`/`resaveOkC_of_B`: a Bool-valued sufficient condition;
+`exObj32_resave`: an ELF32 big-endian object with a PT_LOAD, a nested segment and a loose section meets every
+hypothesis and both saves succeed.  Stated, not proved:
+`SaveLoadSaveStatement`; offset-0 segments (loaded executables) are covered by the
 correspondence run and the oracle only.  Correspondence: family load.
 Oracle: bytes of the first save == bytes of a second save of the same object; bytes of
 save(load(save(obj))) == bytes of save(obj).  Known open finding F13 (address-less NOBITS member with
@@ -17,7 +25,7 @@ from families import c03 as _c03
 
 PROPERTY = "C06"
 FAMILY = "load"
-LEAN_MODULE = "ElfioVerif.Props.C06"
+LEAN_MODULE = "ElfioVerif.Props.C06Cls"
 THEOREMS = ["ElfioVerif.C06.save_twice_witness",
             "ElfioVerif.C06.save_twice_witness_offsets",
             "ElfioVerif.C06.save_twice_witness_byte",
@@ -31,7 +39,17 @@ THEOREMS = ["ElfioVerif.C06.save_twice_witness",
             "ElfioVerif.C06.layoutSegment_resave",
             "ElfioVerif.C06.segRun_resave",
             "ElfioVerif.C06.save_twice",
-            "ElfioVerif.C06.save_idempotent_on_settled"]
+            "ElfioVerif.C06.save_idempotent_on_settled",
+            "ElfioVerif.C06.stepCore_resave_cls",
+            "ElfioVerif.C06.wsdStep_resave_cls",
+            "ElfioVerif.C06.wsdLoop_resave_cls",
+            "ElfioVerif.C06.layoutSegment_resave_cls",
+            "ElfioVerif.C06.segRun_resave_cls",
+            "ElfioVerif.C06.save_twice_cls",
+            "ElfioVerif.C06.save_idempotent_on_settled_cls",
+            "ElfioVerif.C06.resaveOkC_of_c64",
+            "ElfioVerif.C06.resaveOkC_of_B",
+            "ElfioVerif.C06.exObj32_resave"]
 SITES = ["save_", "lsws", "lst_", "lseg", "wsd"]
 RULE = ("writer-domain programs x 4 configurations: save, save again, reload (eager or lazy), save; plus "
         "well-formed bundled examples: load, save, reload, save; non-trivial = first save succeeded and the "
